@@ -661,6 +661,13 @@ Theorem C03_later_consumer_list_is_inside_or_disjoint_from_an_earlier_one :
 Proof. exact later_consumer_list_inside_or_disjoint. Qed.
 Print Assumptions C03_later_consumer_list_is_inside_or_disjoint_from_an_earlier_one.
 
+(* `inj_ops` is decidable: it holds when no operator id occurs twice among the
+   plan entry's consumer entries *)
+Theorem C03_distinct_consumer_operators_decided :
+  forall cs, inj_opsb cs = true -> inj_ops cs.
+Proof. exact inj_opsb_sound. Qed.
+Print Assumptions C03_distinct_consumer_operators_decided.
+
 (* non-vacuity: a quantized producer (DEQUANTIZE with A) read by
    op 3 (QUANTIZE with A), ops 4 and 6 (QUANTIZE with B, then DEQUANTIZE) and
    op 5 (float): all three rewrites fire and ops 4, 6 are merged *)
